@@ -76,8 +76,47 @@ def all_rows(output, tolerate=False):
     return out
 
 
-def names_with_rows(output):
-    return {r["name"] for _, r in all_rows(output, tolerate=True)}
+class Outcomes:
+    """Jobs that have a recorded outcome in some results file.  A file that does not parse
+    (torn by an injected write failure, e.g. a header that lost its newline) still records the
+    outcomes whose bytes it holds: there `<name>,<code>,<status>,` anywhere in the text counts."""
+
+    def __init__(self, names, raw):
+        self.names = names
+        self.raw = raw
+
+    def __contains__(self, name):
+        if name in self.names:
+            return True
+        if self.raw:
+            import re
+
+            pat = re.compile(re.escape(name) + r",-?\d+,(finished|canceled),")
+            return any(pat.search(t) for t in self.raw)
+        return False
+
+    def __iter__(self):
+        return iter(self.names)
+
+
+def names_with_rows(output, torn=False):
+    """torn=True: an injected write failure may have torn a file even so that it still parses
+    (a fragment glued to the next row's name); then the bytes of every file count as well."""
+    names = set()
+    raw = []
+    for p in node_result_files(output) + [os.path.join(output, "processed_results.csv")]:
+        try:
+            for r in read_rows(p) or []:
+                names.add(r["name"])
+        except Unparsable:
+            torn = True
+        if torn:
+            try:
+                with open(p, newline="") as f:
+                    raw.append(f.read())
+            except OSError:
+                pass
+    return Outcomes(names, raw)
 
 
 def classify(row):
